@@ -193,7 +193,7 @@ pub fn install_panic_hook() {
             .location()
             .map(|l| format!("{}:{}", l.file(), l.line()))
             .unwrap_or_default();
-        if PANIC_TRACE.load(Ordering::Relaxed) {
+        if PANIC_TRACE.load(Ordering::Relaxed) || std::env::var("UTPVERIF_PANIC_TRACE").is_ok() {
             eprintln!("[panic captured] {msg} @ {loc}");
         }
         // attribute the panic: innermost frame that belongs to the crate under test or to the harness
